@@ -176,3 +176,14 @@ Theorem C02_trace_recv_sound : forall (H : bytes -> id) min max d data s i j v s
   (i <> j -> j < nworkers s -> w_cons (getw s' j) = S (w_cons (getw s j)) /\ w_sync (getw s' j) = Some v).
 Proof. exact label_recv_sound. Qed.
 Print Assumptions C02_trace_recv_sound.
+
+(* IDs of the synthetic null chunks.  make.go does not hash them: it records the null chunk's ID.
+   In every reachable state, a worker that is about to emit one (pc After c k with max <= k) is
+   looking at max zero bytes, so that ID is the digest of the chunk's bytes. *)
+Theorem C02_pchunk_synthetic_null : forall (H : bytes -> id) min max d data, W <= min -> min <= max -> 0 < max ->
+  forall n, 1 <= n -> forall (sched : list ptid) i c k,
+  let s := run (pstep H min max d data false) sched (pinit max data n) in
+  i < nworkers s -> w_pc (getw s i) = After c k -> max <= k ->
+  (slice data (c_end c) max = repeat 0%N max /\ c_end c + max <= length data) \/ Collision H.
+Proof. exact pchunk_synthetic_null. Qed.
+Print Assumptions C02_pchunk_synthetic_null.
